@@ -271,6 +271,9 @@ class PVLParser(object):
                     parsing = True
                 else:
                     return m
+            except (LexerError, ParseError):
+                # The hook found a genuine error in the text.
+                raise
             except Exception:
                 pass
 
@@ -359,6 +362,8 @@ class PVLParser(object):
                             )
                             if not keep_parsing:
                                 raise ve
+                        except (LexerError, ParseError):
+                            raise
                         except Exception:
                             raise ve
 
